@@ -113,6 +113,17 @@ pub fn run(ctx: &Ctx, rep: &mut Reporter) {
                 wr32(buf.as_mut_slice(), f.off, v);
                 rep.count(&format!("field_hits_section{}_idx{}", f.section, f.idx), 1);
                 format!("field sec{} idx{} @{} := {}", f.section, f.idx, f.off, v)
+            } else if k == 1 && !field_pairs(&layout).is_empty() {
+                // systematic: one pair of related fields x every pair of values, cycling
+                let pairs = field_pairs(&layout);
+                let vals = pair_values(&layout);
+                let (a, b, sec) = pairs[(case_idx as usize) % pairs.len()];
+                let j = (case_idx as usize / pairs.len()) % (vals.len() * vals.len());
+                let (va, vb) = (vals[j / vals.len()], vals[j % vals.len()]);
+                wr32(buf.as_mut_slice(), a, va);
+                wr32(buf.as_mut_slice(), b, vb);
+                rep.count("systematic_field_pair_corruptions", 1);
+                format!("pair sec{sec} @{a}:={va} @{b}:={vb}")
             } else {
                 let c = corrupt(buf.as_mut_slice(), &layout, &mut rng);
                 if let Some(rest) = c.desc.strip_prefix("field sec") {
